@@ -2295,3 +2295,100 @@ func ruleR168(c *Ctx) {
 		c.Missing("flow starts", "no call of (*flow).Start was found")
 	}
 }
+
+// ---- R169 ----
+
+func init() {
+	register(&Rule{ID: "R169", Title: "a function that appends to a field's slice without storing the result back is not run concurrently with itself: it is not reachable from a goroutine launched inside a loop (two runs would write the same spare slot of the shared backing array)", Min: 1, Run: ruleR169})
+}
+
+func ruleR169(c *Ctx) {
+	p := c.P
+	what := "append(obj.opts, x) used as a value (an argument list) writes x into the spare capacity of obj.opts's backing array when there is any. One caller at a time that is harmless; two goroutines doing it at once race on that slot and one of them builds its process with the other's option (the other's tracer)"
+	// functions with an aliasing append on a field
+	type site struct {
+		f  *FuncInfo
+		at *ast.CallExpr
+		fv *types.Var
+	}
+	var sites []site
+	for _, f := range p.Funcs {
+		if f.Body == nil || f.Pkg.PkgPath != pathBpmn {
+			continue
+		}
+		in := info(f)
+		inspectNoLit(f.Body, func(m ast.Node) bool {
+			cl, ok := m.(*ast.CallExpr)
+			if !ok || !isBuiltin(in, cl, "append") || len(cl.Args) < 2 {
+				return true
+			}
+			fv := fieldOf(in, cl.Args[0])
+			if fv == nil {
+				return true
+			}
+			if as, isAs := p.Parent(cl).(*ast.AssignStmt); isAs {
+				for i, r := range as.Rhs {
+					if unparen(r) == ast.Expr(cl) && i < len(as.Lhs) && sameRef(in, as.Lhs[i], cl.Args[0]) {
+						return true // stored back
+					}
+				}
+			}
+			sites = append(sites, site{f, cl, fv})
+			return true
+		})
+	}
+	// functions reachable from a goroutine launched inside a loop
+	concurrent := map[*FuncInfo]string{}
+	var reach func(h *FuncInfo, why string, depth int)
+	reach = func(h *FuncInfo, why string, depth int) {
+		if h == nil || h.Body == nil || depth > 3 {
+			return
+		}
+		if _, seen := concurrent[h]; seen {
+			return
+		}
+		concurrent[h] = why
+		hin := info(h)
+		ast.Inspect(h.Body, func(m ast.Node) bool {
+			if cl, ok := m.(*ast.CallExpr); ok {
+				if cf := p.byObj[callee(hin, cl)]; cf != nil {
+					reach(cf, why, depth+1)
+				}
+			}
+			return true
+		})
+	}
+	for _, f := range p.Funcs {
+		if f.Body == nil || f.Pkg.PkgPath != pathBpmn {
+			continue
+		}
+		in := info(f)
+		inspectNoLit(f.Body, func(m ast.Node) bool {
+			gs, ok := m.(*ast.GoStmt)
+			if !ok || innermostLoop(p, gs) == nil {
+				return true
+			}
+			why := "goroutine launched in a loop at " + p.Pos(gs.Pos())
+			if lit, isLit := unparen(gs.Call.Fun).(*ast.FuncLit); isLit {
+				for _, l := range f.Lits {
+					if l.Lit == lit {
+						reach(l, why, 0)
+					}
+				}
+			} else if cf := p.byObj[callee(in, gs.Call)]; cf != nil {
+				reach(cf, why, 0)
+			}
+			return true
+		})
+	}
+	for _, s := range sites {
+		why, conc := concurrent[s.f]
+		if !conc {
+			why, conc = concurrent[s.f.Root()]
+		}
+		c.Check(!conc, s.f, s.at, "append onto "+s.fv.Name()+" used as a value", what, ifElse(conc, s.f.QName()+" is reached from a "+why, s.f.QName()+" is not reached from any goroutine launched in a loop"))
+	}
+	if len(sites) == 0 {
+		c.Missing("aliasing appends", "no append onto a field whose result is used as a value was found")
+	}
+}
